@@ -1,7 +1,7 @@
 #!/bin/bash
 # mut.sh <patch.diff> <Cxx> [tier] — run one check against a patched /repo, keeping the committed evidence file intact
 set -u
-patch="$1"; prop="$2"; tier="${3:-quick}"
+patch="$(realpath "$1")"; prop="$2"; tier="${3:-quick}"
 cd /verif
 cp evidence/$prop.json /tmp/evidence_$prop.bak 2>/dev/null
 (cd /repo && git apply "$patch") || { echo "patch does not apply"; exit 2; }
